@@ -68,14 +68,10 @@ def run_es(prop, tier, jobs, only, assumptions, functions, bounds):
 
 
 def check_C02(tier, only):
-    s = seed()
-    jobs = []
-    for name, spec, n, T, V in es.systems(tier, s):
-        jobs.append(('ext/' + name, {'job': 'ext', 'model': spec, 'x': es.state(n, T, V, s)}, {'budget_s': 900}))
-    return run_es('C02', tier, jobs, only,
+    return run_es('C02', tier, es.jobs_C02(tier, seed()), only,
                   ['relation decided: A_k(T, lam V, lam N) = lam A_k(T, V, N) for every contribution k (first-order homogeneity <=> Euler/Gibbs-Duhem for exact derivatives)'],
                   ['Residual::residual_helmholtz_energy_contributions<D = Sym> of every model in lib/es.py:systems()'],
-                  {'components': '2 (quick) / 1-3 (thorough)', 'dual_types': 'Sym', 'cone_depth': 5, 'degrees': '[-6, 6]', 'evaluation_points': 4})
+                  {'components': '2 (3 for the ionic ePC-SAFT system)', 'dual_types': 'Sym', 'cone_depth': 5, 'degrees': '[-6, 6]', 'evaluation_points': 4})
 
 
 def replay(prop, path):
